@@ -907,7 +907,8 @@ class Statics:
                         o = owner + "." + ch.name
                     if isinstance(ch, ast.Attribute) and isinstance(ch.ctx, (ast.Store, ast.Del)):
                         own = isinstance(ch.value, ast.Name) and ch.value.id == "self" and o.endswith(".__init__()")
-                        sites.append((ch.attr, o, ch.lineno, "constructor-initialisation" if own else "assignment"))
+                        selfst = isinstance(ch.value, ast.Name) and ch.value.id == "self"
+                        sites.append((ch.attr, o, ch.lineno, "constructor-initialisation" if own else ("self-assignment" if selfst else "assignment")))
                     if isinstance(ch, ast.Subscript) and isinstance(ch.ctx, (ast.Store, ast.Del)) and isinstance(ch.value, ast.Attribute):
                         sites.append((ch.value.attr, o, ch.lineno, "subscript store"))
                     if isinstance(ch, ast.Call):
@@ -969,6 +970,12 @@ class Statics:
                 # a constructor storing to a field of its own fresh object is inside every frame (fresh objects are not in
                 # anybody's pre-state): classes added later may reuse a field name such as `path`
                 ok = owner in frame or how == "constructor-initialisation" or self.helper_of(owner, frame)
+                # a method storing to `self.<field>` of a class that is not one of the frame's classes and initialises a field of
+                # that name itself writes its OWN field, which merely shares the name (stores are resolved by name, not by type)
+                init = owner.rsplit(".", 1)[0] + ".__init__"
+                if not ok and how == "self-assignment" and init not in frame and any(
+                        s2[0] == field and s2[1] == init and s2[3] == "constructor-initialisation" for s2 in sites):
+                    ok = True
                 self.ob(pid, owner, f"heap-frame-{field}@{how.replace(' ', '-')}#{sum(1 for o in self.obs if o['name'].startswith(owner + ':heap-frame-' + field))}", ok,
                         f"{how} of field `{f}` at line {ln} of {owner}: the field is outside this function's frame; the contracts of "
                         f"{', '.join(sorted(x.split('.')[-2] + '.' + x.split('.')[-1] for x in frame))} are the only writers the property's argument allows", ln)
